@@ -9,6 +9,7 @@ func init() {
 	verifRegister("VerifC13Reencode", VerifC13Reencode)
 	verifRegister("VerifC13NewReadsOld", VerifC13NewReadsOld)
 	verifRegister("VerifC13OldReadsNew", VerifC13OldReadsNew)
+	verifRegister("VerifC13ReusedTarget", VerifC13ReusedTarget)
 }
 
 type verifPair struct {
@@ -144,4 +145,29 @@ func VerifC13OldReadsNew() {
 	verifAssert(err == nil, "old-bytes-decode-under-new-schema")
 	p.clearNew(n)
 	verifAssert(verifBytesEq(n2.WriteTL2(nil, nil), n.WriteTL2(nil, nil)), "old-fields-survive-appended-fields-dropped")
+}
+
+// VerifC13ReusedTarget: "fields missing at the end of the body are empty" also when the target object held data before: old bytes
+// (shorter body, fewer presence blocks) decoded into a NEW-schema object that was previously filled from other bytes give the same
+// value as decoding them into a fresh object.
+func VerifC13ReusedTarget() {
+	p := verifPairs[verifChoice(len(verifPairs))]
+	N := verifParam("NR", 8)
+	o := p.oldObj()
+	if _, err := o.ReadTL2(verifBytes(N), nil); err != nil {
+		return
+	}
+	w := o.WriteTL2(nil, nil)
+	dirty := p.newObj()
+	if _, err := dirty.ReadTL2(verifBytes(verifParam("ND", 10)), nil); err != nil {
+		return
+	}
+	verifCover("reused")
+	fresh := p.newObj()
+	_, e1 := dirty.ReadTL2(w, nil)
+	_, e2 := fresh.ReadTL2(w, nil)
+	verifAssert(e1 == nil && e2 == nil, "old-bytes-accepted-by-reused-and-fresh-target")
+	if e1 == nil && e2 == nil {
+		verifAssert(verifBytesEq(dirty.WriteTL2(nil, nil), fresh.WriteTL2(nil, nil)), "missing-trailing-fields-are-empty-in-a-reused-target")
+	}
 }
